@@ -288,6 +288,8 @@ func (r *Replica) RunTo(target uint32) bool {
 			case hr = <-r.Tr.HeightsCh:
 			case <-r.exitCh:
 				return false
+			case <-Abort:
+				return false
 			}
 		}
 		synced := r.Node.Sync.Synced
@@ -334,6 +336,8 @@ func (r *Replica) Stop() {
 		case hr := <-r.Tr.HeightsCh:
 			close(hr.Reply)
 		case <-r.exitCh:
+			done = true
+		case <-Abort:
 			done = true
 		}
 	}
@@ -395,3 +399,14 @@ func (s *Sched) Park(kind, caller, key string) {
 	s.ch <- p
 	<-p.reply
 }
+
+// RO is the replica's observation connection (valid during a lifetime).
+func (r *Replica) RO() *sql.DB { return r.ro }
+
+// Abort is closed by the harness watchdog when a bubble is stuck (every
+// goroutine blocked, no timer pending): the runner loops give up so that the
+// harness can report the goroutine dump instead of dying.
+var Abort = make(chan struct{})
+
+// ResetAbort arms a fresh abort channel (called at the start of each bubble).
+func ResetAbort() { Abort = make(chan struct{}) }
